@@ -153,6 +153,7 @@ type Scenario struct {
 	FSStore       bool                 // the Persistence is mqtt.FileSystem over the in-memory file system; every primitive is a gate
 	AdoptProp     string               // property an AdoptSession failure is attributed to (default C02)
 	LazyExchanges bool                 // the application does not read its exchange channels before the end
+	AliasLoad     bool                 // Load returns the stored slice itself, not a copy
 	Burst         bool                 // the broker sends the whole inbound script right after CONNACK
 	Mute          func(p *Packet) bool // the broker consumes these packets without reacting
 	Hostile       [][]byte             // byte strings the broker may send once (one per execution)
@@ -542,6 +543,9 @@ func (w *World) threadAlts(th *thread) (alts []alt, hasDefault bool) {
 			switch r.op {
 			case "load":
 				r.data = clone(st.m[r.key])
+				if w.scn.AliasLoad {
+					r.data = st.m[r.key] // the store's own memory, as the library's in-memory map hands out
+				}
 			case "save":
 				r.val = flat(r.bufs)
 				st.m[r.key] = clone(r.val)
